@@ -175,6 +175,9 @@ def run(ctx):
     ctx.rule("C10.R6", "A10 append-buffer discipline: the BCF header reader (VCF text) resets its line buffer before every appended line")
     a10.discipline_rule(ctx, "C10.R6", r"^<?noodles_bcf::", 2)
 
+    ctx.rule("C10.R8", "A10 writer scratch buffer: the async BCF writer clears its record buffer on every path before the encoder fills it")
+    a10.scratch_buffer_rule(ctx, "C10.R8", r"^<?noodles_bcf::", 1)
+
     ctx.rule("C10.R7", "A7 sibling guard agreement: the per-type copies of the FORMAT value decoders (Int8/Int16/Int32/Float, scalar and "
                        "vector) report a sample as missing under the same guards")
     VAL = "noodles_bcf::record::codec::decoder::samples::values::"
@@ -190,6 +193,9 @@ def run(ctx):
         keys = sorted(k for k in fb.fns if k.startswith(VAL) and re.search(fam, k[len(VAL):]) and not fb.fns[k].is_closure)
         ctx.floor("C10.R7", "sibling decoders matching " + fam, len(keys), floor)
         a7.sibling_guard_agreement(ctx, "C10.R7", keys, pushes_none, "sample value is missing (push None)")
+
+    ctx.rule("C10.R9", "the BCF dictionary of strings only grows: resize of StringMap.entries is growth-guarded, no other shortening operation")
+    grow_only_rule(ctx, "C10.R9", "noodles_vcf::header::string_maps::string_map::StringMap", "entries", "noodles_vcf::header::string_maps", 1)
 
     ctx.rule("C10.R4", "string-map lookups on decode are error exits on a missing index")
     n = 0
@@ -208,3 +214,70 @@ def run(ctx):
             else:
                 ctx.ok("C10.R4", k, "lookup result handled without unwrap/default", f.loc(b))
     ctx.floor("C10.R4", "string-map lookups in the decoders", n, 3)
+
+
+SHRINK_RX = re.compile(r"Vec::<T, A>::(resize|resize_with|truncate|pop|remove|swap_remove|drain|clear|retain|retain_mut|split_off|dedup\w*|set_len)$")
+
+
+def grow_only_rule(ctx, rule, adt_key, field, scope_prefix, floor):
+    """The indexed dictionary `adt.field` only grows: every Vec operation on it that CAN shorten it is a `resize` placed on one edge
+    only of a comparison with the vector's own length (growth-only guard), or its new length is computed with max(len, ..).
+    The name->index table next to it keeps pointing at positions; a shortened vector leaves those indices dangling (they resolve to
+    nothing, or to whatever is pushed into the freed positions next)."""
+    fb = ctx.fb
+    adt = fb.adts.get(adt_key)
+    if adt is None:
+        ctx.violation(rule, "%s/ANCHOR-MISSING/%s" % (rule, adt_key), "type %s not found" % adt_key)
+        return
+    fields = (adt.get("variants") or [{}])[0].get("fields") or adt.get("fields") or []
+    idx = next((i for i, fl in enumerate(fields) if fl["name"] == field), None)
+    if idx is None:
+        ctx.violation(rule, "%s/ANCHOR-MISSING/%s.%s" % (rule, adt_key, field), "field %s.%s not found" % (adt_key, field))
+        return
+    n = 0
+    for k, f in sorted(fb.fns.items()):
+        if not k.startswith(scope_prefix) or not f.blocks:
+            continue
+        bd = None
+        for bi, c in f.calls():
+            fk = c.get("f") or ""
+            m = SHRINK_RX.search(fk)
+            if not m or not c["args"]:
+                continue
+            if bd is None:
+                bd = a10.Body(fb, f)
+            pt = bd.pointee(c["args"][0])
+            if pt is None or not pt[1] or pt[1][-1] != ("f", idx):
+                continue
+            root_ty = f.locals[pt[0][1]] if pt[0][0] == "l" or not f.coro else ""
+            if pt[0][0] == "l" and adt_key.split("::")[-1] not in root_ty:
+                continue
+            n += 1
+            ctx.saw_fn(f)
+            op = m.group(1)
+            if op != "resize" and op != "resize_with":
+                ctx.violation(rule, "%s/shrinks/%s/%s" % (rule, k, op), "%s calls %s on %s.%s: the dictionary can lose entries that the name->index "
+                              "table still points at" % (k, op, adt_key.split("::")[-1], field), f.loc(bi))
+                continue
+            newlen = c["args"][1]
+            if R.derives_from_call(f, newlen, lambda s: s.endswith("::max")):
+                ctx.ok(rule, "%s :: %s" % (k, op), "the new length is a max(..) with the current length", f.loc(bi))
+                continue
+
+            def is_len(fn, opnds, kind):
+                return any(R.derives_from_call(fn, o, lambda s: s.endswith("Vec::<T, A>::len")) for o in opnds)
+            guards = [(b, t_t, f_t) for b, kind, opnds, t_t, f_t in R._cmp_switches(f) if kind in ("Lt", "Le", "Gt", "Ge") and is_len(f, opnds, kind)]
+            one_edge = False
+            for b, t_t, f_t in guards:
+                rt = bi in C.reachable(f, t_t, removed={b})
+                rf = bi in C.reachable(f, f_t, removed={b})
+                if rt != rf and bi not in C.reachable(f, 0, removed={b}):
+                    one_edge = True
+            if one_edge:
+                ctx.ok(rule, "%s :: %s" % (k, op), "resize sits on one edge only of a comparison with the vector's length (growth-only)", f.loc(bi))
+            else:
+                ctx.violation(rule, "%s/unguarded-resize/%s" % (rule, k),
+                              "%s resizes %s.%s without a comparison against its current length on the way: Vec::resize also TRUNCATES, so an "
+                              "index below the current length drops every entry above it while the name->index table keeps them" % (
+                                  k, adt_key.split("::")[-1], field), f.loc(bi))
+    ctx.floor(rule, "length-changing Vec operations on %s.%s" % (adt_key.split("::")[-1], field), n, floor)
